@@ -65,8 +65,31 @@ StOf(vv) == [ v |-> vv, distance |-> NONE, dirty |-> NONE, branch |-> NoT, hash 
 RenderedSemVer(sv) == LET z == SemVerToZerv(sv) IN RenderSemVer(z.sch, StOf(z.v))
 RenderedPep440(sv) == LET z == SemVerToZerv(sv) IN RenderPep440(z.sch, StOf(z.v))
 
-\* the text of a SemVer value
 IdText(id) == IF id.num THEN Dec(id.n) ELSE id.t
+
+\* ---- PEP 440 -> Zerv ----
+\* pv = [epoch (0 = none), rel (sequence of integers), pre ([l, n] or none), post, dev (NONE = absent),
+\*       local (sequence of [num, n, t] segments)]
+PepToZerv(pv) ==
+  [ sch |-> [ core  |-> StandardCore \o [i \in 1..(IF Len(pv.rel) > 3 THEN Len(pv.rel) - 3 ELSE 0) |-> CUInt(pv.rel[i + 3])],
+              extra |-> ExtraTier(3),
+              build |-> [i \in 1..Len(pv.local) |-> IF pv.local[i].num THEN CUInt(pv.local[i].n) ELSE CStr(pv.local[i].t)] ],
+    v |-> [ epoch |-> IF pv.epoch > 0 THEN pv.epoch ELSE NONE,
+            major |-> pv.rel[1], minor |-> IF Len(pv.rel) >= 2 THEN pv.rel[2] ELSE NONE, patch |-> IF Len(pv.rel) >= 3 THEN pv.rel[3] ELSE NONE,
+            pre |-> pv.pre, post |-> pv.post, dev |-> pv.dev ] ]
+PepRenderedSemVer(pv) == LET z == PepToZerv(pv) IN RenderSemVer(z.sch, StOf(z.v))
+PepRenderedPep440(pv) == LET z == PepToZerv(pv) IN RenderPep440(z.sch, StOf(z.v))
+PepLabel440(l) == IF l = "alpha" THEN <<97>> ELSE IF l = "beta" THEN <<98>> ELSE <<114, 99>>
+\* the normal-form text of a PEP 440 value
+PepString(pv) ==
+  (IF pv.epoch > 0 THEN Dec(pv.epoch) \o <<BANG>> ELSE <<>>)
+  \o Join([i \in 1..Len(pv.rel) |-> Dec(pv.rel[i])], <<DOT>>)
+  \o (IF pv.pre.l = "none" THEN <<>> ELSE PepLabel440(pv.pre.l) \o Dec(pv.pre.n))
+  \o (IF pv.post = NONE THEN <<>> ELSE <<DOT>> \o W("post") \o Dec(pv.post))
+  \o (IF pv.dev = NONE THEN <<>> ELSE <<DOT>> \o W("dev") \o Dec(pv.dev))
+  \o (IF pv.local = <<>> THEN <<>> ELSE <<PLUS>> \o Join([i \in 1..Len(pv.local) |-> IdText(pv.local[i])], <<DOT>>))
+
+\* the text of a SemVer value
 SemVerString(sv) == Join(<<Dec(sv.major), Dec(sv.minor), Dec(sv.patch)>>, <<DOT>>)
    \o (IF sv.pre = <<>> THEN <<>> ELSE <<DASH>> \o Join([i \in 1..Len(sv.pre) |-> IdText(sv.pre[i])], <<DOT>>))
    \o (IF sv.build = <<>> THEN <<>> ELSE <<PLUS>> \o Join([i \in 1..Len(sv.build) |-> IdText(sv.build[i])], <<DOT>>))
